@@ -24,6 +24,12 @@ CLAIMED = {
          "For each generated field the lossless reader must report no error and entries/alternatives/name/archqual/operator/version (as text and as Debian version)/architectures with negation/profile groups/substvars must equal the generator's model; the lossy reader must accept substvar-free fields and give the same structure. 3750-row factorial over archqual x version shape x operator x architectures x profile groups x position, plus random fields with free whitespace."),
  "C11": ("model-based state-machine monitor over relation edit histories (15 operations, operands built by 5 constructors) against a list-of-lists model: live accessors, strict re-read, separator-surplus and untouched-entry invariants after every step; random histories + exhaustive short-history catalogue",
          "After every push/insert/replace/remove (field and entry level) and every set_version/drop_constraint/set_archqual/set_architectures/add_profile through get_entry/get_relation handles, the root's printed text must parse strictly (with substvars when present) to the model, the live accessors must report the model, the count of ',' and '|' beyond what the items need must not grow, and untouched entries and substvars keep their text. Start states: empty field (3 constructors), generated fields of all layouts; all histories of length <=2 (quick) / <=3 (thorough) over 22 operations x 6 fields."),
+ "C12": ("exhaustive decision table against an independent ladder model of Debian version order, every evaluator and lookup form; random multi-entry fields x all 64 installation assignments",
+         "All 540 (operator or none) x required version x installed (absent or any of 9 ladder versions with epoch, revision, '~') single-relation cases and random fields of <=3 entries x <=3 alternatives over 3 packages under all 4^3 assignments are evaluated by lossless Relations/Entry::satisfied_by and lossy Relations/Relation::satisfied_by through closure, HashMap and (name,version) lookups and compared with the model's answer; the ladder's order is itself checked against debversion first."),
+ "C13": ("invariant oracle on Relations::wrap_and_sort over grammar-generated fields: canonical text, crate Ord sortedness, multiset equality with the generator's model, strict re-read, idempotence",
+         "For every generated field (all layouts, empty entries, epochs, negated architectures, multi-term profile lists, substvars) the normalised text must be single-line canonical text of its own structure, sorted under the crate's public Ord, free of empty entries, strictly parseable, denote the same multiset of entries/alternatives/parts and substvars as the generator's model, agree with what the returned object reports, and be a fixed point."),
+ "C14": ("round-trip and conversion oracle over lossy Relation/Relations values built from components (full factorial + random): lossy print/parse equality, lossless reading of the printed text, lossy<->lossless conversion equality and print agreement",
+         "768-row factorial over name x version x archqual x architectures x profile lists plus random fields: to_string() must re-parse (lossy) to an equal value and be read by the lossless reader as the same structure; lossless::Relation::from(x) must print the same text and convert back to x; Entry <-> Vec<lossy::Relation> likewise."),
 }
 TODO = {}
 props = [json.loads(l) for l in open("/verif/properties.jsonl")]
